@@ -17,6 +17,8 @@ def S(name):
 
 U8, I8, BOOL, STR, CHAR, UNIT, F64, F32 = S("u8"), S("i8"), S("bool"), S("String"), S("char"), S("unit"), S("f64"), S("f32")
 U16, I16, U64, I64, NZU8, NZI8 = S("u16"), S("i16"), S("u64"), S("i64"), S("NonZeroU8"), S("NonZeroI8")
+U32, I32, U128, I128, USIZE, ISIZE = S("u32"), S("i32"), S("u128"), S("i128"), S("usize"), S("isize")
+NZU16, NZU64, NZI64, NZI128 = S("NonZeroU16"), S("NonZeroU64"), S("NonZeroI64"), S("NonZeroI128")
 
 
 def field(ident, ty, rename=None, default=None, skip=False, mapfn=False, frm=None, missing_fn=False, error=None):
@@ -132,6 +134,12 @@ ENTRIES = [
     ("ref", "ETagCollide"), ("ref", "ETagRaw"), ("ref", "EOne"), ("ref", "SWithEnums"),
     ("vec", ("ref", "ETag")), ("hmap", "String", ("ref", "SPlain")), ("opt", ("ref", "EUnit")), ("tup", [("ref", "SPlain"), ("ref", "EUnit")]),
     ("vec", ("ref", "SDeny")),
+    # more scalars and deeper nestings of the std impls
+    U16, U32, U128, USIZE, I16, I32, I128, ISIZE, F32, NZI8, NZU16, NZU64, NZI64, NZI128,
+    ("hmap", "String", ("vec", ("opt", U8))), ("vec", ("tup", [STR, ("opt", BOOL)])), ("arr", ("ref", "SPlain"), 2), ("bset", ("tup", [U8, U8])),
+    ("opt", ("hmap", "u8", ("arr", BOOL, 1))), ("tup", [("opt", U8), ("vec", ("vec", U8)), ("bmap", "String", I8)]), ("box", ("opt", ("box", STR))),
+    ("vec", ("ref", "EUnit")), ("hmap", "String", ("ref", "ETagCamel")), ("bmap", "i32", ("ref", "SDefault")), ("opt", ("ref", "SMix")),
+    ("vec", ("cs", "String")), ("hset", ("opt", U8)),
     ("ref", "FFrom"), ("ref", "FTry"), ("ref", "FTryF"), ("ref", "FMap"), ("ref", "FValidate"), ("ref", "FMissing"), ("ref", "FDenyFn"), ("ref", "FAll"),
     ("ref", "CFrom"), ("ref", "CTry"), ("ref", "EValidate"), ("ref", "EUnitValidate"), ("ref", "FNest"), ("vec", ("ref", "FTry")),
 ]
